@@ -15,7 +15,7 @@ SPEC = {
     "modules": ["HC.Props.C07", "HC.Props.C03"],
     "extracted": ["ConnGuards"],
     "technique": "Lean 4 invariants of the timed connection model (virtual clock, single restartable timer slot, deadline = start + keep_alive_timeout, time cannot pass an armed deadline) proved for all operation sequences and all timeout values; tied by trace acceptance of the real TCPServer under virtual time on both workers (exact close / completion instants), monitors on the implementation's timestamps, and Updated(idle=..) call sites / timer wiring regenerated from the AST",
-    "level_text": "Proved for every configuration and operation sequence: while the idle timer is armed no request is in progress and no WebSocket is open (so the timer never closes a busy connection); an armed deadline is exactly (start of idleness) + keep_alive_timeout and virtual time cannot pass it; on a connection without streams the expiry step is enabled exactly at the deadline (at once during shutdown, when no time may pass first) and closes the transport at that instant; bytes that do not complete a head leave timer and deadline untouched; a reader waiting on a transport the server closed is never quiescent; on a prior-knowledge HTTP/2 connection the wrapper's Updated(idle=True) is processed while no stream exists and before the bytes behind the preface; a server-side close on trio releases a writer the peer keeps waiting, which then reports the closure; when reader, applications, closer tasks and timer have ended the handler exits at once with the transport closed.  Tie: pause at every point of 13 canonical histories x {T-eps, T, T+eps} x T in {0.01, 1, 5, 3600} (quick: sampled) plus random histories, both workers, replayed by the model's acceptor and judged by monitors (busy/timer overlap, idle longer than T, exact expiry instant, release instant, live tasks).",
+    "level_text": "Proved for every configuration and operation sequence: while the idle timer is armed no request is in progress and no WebSocket is open (so the timer never closes a busy connection); an armed deadline is exactly (start of idleness) + keep_alive_timeout and virtual time cannot pass it; on a connection without streams the expiry step is enabled exactly at the deadline (at once during shutdown, when no time may pass first) and closes the transport at that instant; bytes that do not complete a head leave timer and deadline untouched; the end of an HTTP/1 response restarts the timer whatever the parser still holds (recycle_restarts_idle_timer; the Updated(idle=True) of _maybe_recycle is an unconditional statement of the recycle branch, extracted), so the beginning of a pipelined head that arrived while the response was pending does not keep the connection open; a reader waiting on a transport the server closed is never quiescent; on a prior-knowledge HTTP/2 connection the wrapper's Updated(idle=True) is processed while no stream exists and before the bytes behind the preface; a server-side close on trio releases a writer the peer keeps waiting, which then reports the closure; when reader, applications, closer tasks and timer have ended the handler exits at once with the transport closed.  Tie: pause at every point of 21 canonical histories and of the partial-pipelined-head family (the first bytes of the next head arrive before the current response is complete, cut at every point of the head, in a read of their own or in the first request's read) x {T-eps, T, T+eps} x T in {0.01, 1, 5, 3600} (quick: sampled) plus random histories, both workers, replayed by the model's acceptor and judged by monitors (busy/timer overlap, idle longer than T, exact expiry instant, release instant, live tasks).",
     "level_note": "Trusted: Lean kernel; the model HC/Conn/Server.lean (tied by trace acceptance); virtual-time loops of the harness (asyncio SelectorEventLoop subclass, trio MockClock); the recording wrapper around context.terminated as the observation of the timer task; 'as soon as' = same virtual millisecond.  'released' is proved for the final step and for the reader noticing the close; that a parked reader is released is tied by the differential and by decided witnesses.",
     "rule": "canonical history x pause position x pause length x timeout x worker (+ random histories); distinct = each such cell; non-trivial = the pause is within 1 ms of the timeout or the peer leaves",
     "trusted": ["harness virtual clocks", "RecordingEvent wrapper of context.terminated"],
@@ -158,12 +158,16 @@ def run(ctx: Ctx) -> None:
         # every quick run contains the late-finish histories (an abandoned stream whose application ends later must not prolong idleness)
         must = [c for c in g if c["key"][0] in ("h2_rst_late_finish", "h1_reset_late_finish", "h2_prior_slow", "h2_prior_preface_then_slow", "h2_slow", "h2_prior_late_preface", "h2c_slow", "h2c_then_get")
                 and c["key"][4] == 1 and c["key"][2] == 1 + EPS and c["key"][3] is None]
+        # … and the partial pipelined heads: the pause (T + eps) follows the partial head, which arrived while the first request was
+        # being answered; every cut point, the two arrival variants alternating
+        must += [c for c in g if c["key"][0].startswith("pipelined_partial_head") and c["key"][4] == 1 and c["key"][2] == 1 + EPS and c["key"][3] is None
+                 and c["key"][1] == len(c["client"]) - 3 and (int(c["key"][0].split("@")[1]) % 2 == 0) == ("one_read" in c["key"][0])]
         rest = [c for c in g if c not in must]
         ctx.rng.shuffle(rest)
         g = must + rest[:240]
     ctx.exhaustive = ctx.thorough
     for c in g:
-        ctx.count("canonical", c["key"][0])
+        ctx.count("canonical", c["key"][0].split("@")[0])
         ctx.count("pause", "T-eps" if c["key"][2] < c["T"] else ("T" if c["key"][2] == c["T"] else "T+eps"))
         ctx.distinct(c["key"])
     ctx.sample({"canonical": g[0]["key"], "client": [a[0] for a in g[0]["client"]]} if g else {}, cap=1)
